@@ -13,9 +13,9 @@ import scipy as _sp
 import z3
 
 from . import core as C
-from .core import Q, Qc, B, Z, F64
+from .core import Q, Qc, B, Z, F64, NaNQ
 
-_SYM = (Q, Qc, B, Z, F64)
+_SYM = (Q, Qc, B, Z, F64, NaNQ)
 
 
 class State:
@@ -454,6 +454,23 @@ def unique(a, *args, **kw):
     return r.view(SymArray)
 
 
+def sum_(a, *args, **kw):
+    """np.sum of an xarray DataArray over symbolic scalars: xarray's
+    default skipna=True semantics (NaN entries are skipped)."""
+    if hasattr(a, 'dims') and hasattr(a, 'data') and not args and not kw \
+            and getattr(a, 'dtype', None) == object:
+        tot = Q(Fraction(0))
+        for v in _np.asarray(a.data, dtype=object).flat:
+            if isinstance(v, NaNQ):
+                continue
+            tot = tot + v
+        import xarray
+        out = _np.empty((), dtype=object)
+        out[()] = tot
+        return xarray.DataArray(out)
+    return _np.sum(a, *args, **kw)
+
+
 def norm(x, *a, **kw):
     kw.pop('check_finite', None)
     if has_sym(x):
@@ -571,7 +588,8 @@ symnp = _Namespace(_np, dict(
     imag=imag, conj=conj, conjugate=conj, abs=abs_, absolute=abs_,
     sqrt=sqrt, exp=_uf('exp', _np.exp), log=_uf('ln', _np.log),
     log10=_uf('lg', _np.log10), round=round_, around=round_, sort=sort,
-    linalg=_np_linalg, allclose=allclose, unique=unique, vstack=vstack, any=any__, all=all__,
+    linalg=_np_linalg, allclose=allclose, unique=unique, vstack=vstack,
+    sum=sum_, any=any__, all=all__,
     max=maximum_reduce, amax=maximum_reduce, min=minimum_reduce,
     amin=minimum_reduce, clip=clip,
 ))
